@@ -388,7 +388,7 @@ func (o *C08) Check(x *h.Exec, ev *h.Event) {
 	}
 }
 
-var validTraversal = regexp.MustCompile(`^[A-Za-z_][A-Za-z0-9_-]*(\.[A-Za-z_][A-Za-z0-9_-]*|\[\d+\]|\["[^"\\$%]*"\])*$`)
+var validTraversal = regexp.MustCompile(`^[\p{L}_][\p{L}0-9_-]*(\.[\p{L}_][\p{L}0-9_-]*|\[\d+\]|\["[^"\\$%]*"\])*$`)
 
 func isBlockLocalRoot(r string) bool { return r == "self" || r == "count" || r == "each" }
 
